@@ -3,6 +3,7 @@ import DriverVSA.SetOps
 import DriverVSA.ExprOps
 import DriverVSA.BalOps
 import DriverVSA.BalancerOps
+import DriverVSA.SetOpsCmd
 /-! Line-protocol driver for the VSA family: one request per line, first token selects the handler.
 Imports only core-Lean model files under Claripy/ (never Mathlib), so it links as an executable. -/
 
@@ -10,6 +11,8 @@ def dispatch (line : String) : String :=
   match (line.trimAscii.toString.splitOn " ").filter (· ≠ "") with
   | "si" :: args => DriverVSA.handleSI args
   | "ds" :: args => DriverVSA.handleDS args
+  | "so" :: args => DriverVSA.handleSO args
+  | "vs" :: args => DriverVSA.handleVS args
   | "ex" :: args => DriverVSA.handleEx args
   | "bal" :: args => DriverVSA.handleBal args
   | "balance" :: args => DriverVSA.handleBalance args
